@@ -182,6 +182,26 @@ sort_h!(c15_sort_c, "c", Key::Cat);
 // @harness name=c15_sort_none props=C15 tier=quick cap=600
 // no recognised key (-o x): ascending address order is kept
 sort_h!(c15_sort_none, "x", Key::None);
+// two-letter orders: only the LAST letter may decide (a symbolic first letter exhausts memory, so
+// the combinations are concrete instances)
+// @harness name=c15_sort_upper_a_then_s props=C15 tier=quick cap=900
+// -o As: squawk ascending although the first key sorts descending
+sort_h!(c15_sort_upper_a_then_s, "As", Key::Squawk);
+// @harness name=c15_sort_upper_d_then_a props=C15 tier=quick cap=900
+// -o Da: altitude ascending although the first key sorts descending
+sort_h!(c15_sort_upper_d_then_a, "Da", Key::AltUp);
+// @harness name=c15_sort_upper_v_then_s props=C15 tier=thorough cap=900
+// -o Vs
+sort_h!(c15_sort_upper_v_then_s, "Vs", Key::Squawk);
+// @harness name=c15_sort_upper_a_then_upper_a props=C15 tier=thorough cap=900
+// -o AA: still descending
+sort_h!(c15_sort_upper_a_then_upper_a, "AA", Key::AltDown);
+// @harness name=c15_sort_s_then_x props=C15 tier=thorough cap=900
+// -o sx: an unrecognised last letter leaves the squawk order
+sort_h!(c15_sort_s_then_x, "sx", Key::Squawk);
+// @harness name=c15_sort_upper_d_then_n props=C15 tier=thorough cap=900
+// -o DN
+sort_h!(c15_sort_upper_d_then_n, "DN", Key::Lat);
 // @harness name=c15_sort_two_letters props=C15 tier=quick cap=900
 // -o sA (the CLI default): the LAST letter decides: altitude descending
 sort_h!(c15_sort_two_letters, "sA", Key::AltDown);
